@@ -106,7 +106,7 @@ void FastTokenManager::onSasl2Success(const Sasl2::Success &) { }
 template<typename T> union VpTyped { T v; VpTyped() { } ~VpTyped() { } T *p() { return &v; } T *operator->() { return &v; } };
 
 // instance configuration bits (cdefs VP_CFG): structural choices are compile-time constants, values stay symbolic
-enum { CFG_SSL_LOCAL = 1, CFG_STREAM_ID = 2, CFG_STREAM_FROM = 4, CFG_STREAM_VERSION = 8, CFG_STREAM_SYM = 16 /* id/from/version: 0..2 units each, emptiness symbolic */, CFG_TLS_SHIFT = 5, CFG_S2_SHIFT = 7 };
+enum { CFG_SSL_LOCAL = 1, CFG_STREAM_ID = 2, CFG_STREAM_FROM = 4, CFG_STREAM_VERSION = 8, CFG_STREAM_SYM = 16 /* id/from/version: 0..2 units each, emptiness symbolic */, CFG_TLS_SHIFT = 5, CFG_S2_SHIFT = 7, CFG_SSL_SYM = 512 /* local TLS support: symbolic */ };
 
 struct Fx {
     VpTyped<QXmppOutgoingClientPrivate> priv;
@@ -135,7 +135,7 @@ struct Fx {
         d->config.setPassword(vpSymString(2));
         d->config.setResource(vpSymString(2));
         // --- socket and the environment answers
-        sslLocal = (vp_c04_cfg() & CFG_SSL_LOCAL) != 0;
+        sslLocal = (vp_c04_cfg() & CFG_SSL_SYM) ? vp_bool() : (vp_c04_cfg() & CFG_SSL_LOCAL) != 0;
         vp_c04_env(true, false, sslLocal);
         FakeSock *s = new (&d->socket) FakeSock();
         s->m_socket = reinterpret_cast<QSslSocket *>(ssl);
